@@ -138,6 +138,10 @@ func dataFor(i int, e elem) string {
 		}
 		return fmt.Sprintf(`{"id": %d, "force": false}`, i)
 	case "AAddMeta":
+		if e.Opt%3 == 2 && e.Bad%2 == 1 {
+			// an empty metadata object is a valid write too; the element is recognised by its target
+			return fmt.Sprintf(`{"targetType":"ACCOUNT","targetId":"acc-e%d","metadata":{}}`, i)
+		}
 		extra := ""
 		if e.Opt%3 == 1 {
 			extra = fmt.Sprintf(`,"x":"%d"`, i)
@@ -184,6 +188,12 @@ func ownRequest(c fakeapi.WriteCall, i int, e elem) string {
 			return fmt.Sprintf("revert:force=%v", c.Force)
 		}
 	case "ADD_METADATA":
+		if e.Opt%3 == 2 && e.Bad%2 == 1 {
+			if len(c.Meta) != 0 {
+				return fmt.Sprintf("add-metadata:metadata=%v", c.Meta)
+			}
+			return ""
+		}
 		want := map[string]string{"e": fmt.Sprint(i)}
 		if e.Opt%3 == 1 {
 			want["x"] = fmt.Sprint(i)
@@ -238,6 +248,11 @@ func idxOf(c fakeapi.WriteCall) int {
 	case "REVERT_TRANSACTION":
 		return int(c.ID.Int64())
 	case "ADD_METADATA":
+		if id, ok := c.TargetID.(string); ok && strings.HasPrefix(id, "acc-e") && len(c.Meta) == 0 {
+			if n, err := strconv.Atoi(id[5:]); err == nil {
+				return n
+			}
+		}
 		n, err := strconv.Atoi(c.Meta["e"])
 		if err != nil {
 			return -1
